@@ -2275,7 +2275,7 @@ class TenSym(PySym):
                         recv_ = self.ex(s.value.func.value)
                     except Unsupported:
                         recv_ = None
-                    if isinstance(recv_, Obj) and callable(getattr(recv_, "write", None)):
+                    if isinstance(recv_, Obj) and (callable(getattr(recv_, "write", None)) or "write" in (recv_.__dict__.get("_methods") or {})):
                         self.ex(s.value)
                 return
             if isinstance(s.value, ast.Call) and (call_name(s.value) or "") in ("np.clip",) and any(k.arg == "out" for k in s.value.keywords):
